@@ -23,6 +23,9 @@ pub struct Item {
     /// Capture texts 0..4 of the matched text (glob walks).
     pub captures: Vec<Option<String>>,
     pub error: Option<String>,
+    /// Error items converted with the documented `io::Error::from(WalkError)`: the text of the
+    /// converted error and the path and depth of the `WalkError` it carries, if it carries one.
+    pub io_error: Option<(String, Option<(Option<PathBuf>, usize)>)>,
 }
 
 pub trait Describe {
@@ -137,20 +140,32 @@ where
                     candidate,
                     captures,
                     error: None,
+                    io_error: None,
                 });
             },
-            Err(err) => out.push(Item {
-                path: err.path().map(|p| p.to_path_buf()),
-                is_err: true,
-                root: PathBuf::new(),
-                relative: PathBuf::new(),
-                depth: err.depth(),
-                is_dir: false,
-                matched: None,
-                candidate: None,
-                captures: Vec::new(),
-                error: Some(err.to_string()),
-            }),
+            Err(err) => {
+                let path = err.path().map(|p| p.to_path_buf());
+                let depth = err.depth();
+                let text = err.to_string();
+                let io: std::io::Error = err.into();
+                let carried = io
+                    .get_ref()
+                    .and_then(|e| e.downcast_ref::<wax::walk::WalkError>())
+                    .map(|w| (w.path().map(|p| p.to_path_buf()), w.depth()));
+                out.push(Item {
+                    path,
+                    is_err: true,
+                    root: PathBuf::new(),
+                    relative: PathBuf::new(),
+                    depth,
+                    is_dir: false,
+                    matched: None,
+                    candidate: None,
+                    captures: Vec::new(),
+                    error: Some(text),
+                    io_error: Some((io.to_string(), carried)),
+                });
+            },
         }
     }
 }
